@@ -2,16 +2,20 @@ import importlib.util, os
 _c01 = os.path.join(os.path.dirname(os.path.dirname(os.path.abspath(__file__))), "C01", "plan.py")
 _s = importlib.util.spec_from_file_location("plan_C01_for_C02", _c01); _m = importlib.util.module_from_spec(_s); _s.loader.exec_module(_m)
 
+def build_history(ex):
+    return open(os.path.join(os.path.dirname(os.path.abspath(__file__)), "lemma_c02.verus.rs")).read()
+
+
 PLAN = dict(
     id="C02",
     level="other",
     explanation=(
-        "The per-thread representation invariant I2'' of the default-dispatch state (thread-local default is None, or the top of this thread's "
-        "scope stack, or - only when the global default is set - that global; SCOPED_COUNT >= number of this thread's scopes) is shown inductive: "
+        "The per-thread representation invariant I2'' of the default-dispatch state (with a live scope: the thread-local default is the top of this thread's "
+        "scope stack; without one: None or - only when the global default is set - that global; SCOPED_COUNT >= number of this thread's scopes) is shown inductive: "
         "get_default/get_default_slow, get_current/Entered::current, set_default + DefaultGuard drop (single and nested, LIFO), with_default and "
         "set_global_default are each started by a loop-free Kani harness from an ARBITRARY concrete state satisfying the invariant (symbolic: "
         "scope or none, global set or unset, cached global or not, any SCOPED_COUNT contributed by other threads) and must hand f the dispatch "
-        "resolve(sigma, G) exactly once and re-establish the invariant. Hence the statement for every finite nested history of one thread, wherever "
+        "resolve(sigma, G) exactly once and re-establish the invariant. A Verus lemma layer (lemma_c02.verus.rs) takes these contracts as the transition relation of an abstract machine (scope stack, guards with their restore values, one-shot global) and proves by induction over histories that the invariant holds after EVERY finite well-nested history and that an emission sees resolve(sigma, G). Hence the statement for every finite nested history of one thread, wherever "
         "set_global_default falls in it. Claimed as `other`, not proof, because the cross-thread clauses are a frame assumption."),
     functions_under_contract=[
         "tracing-core/src/dispatch.rs: get_default, get_default_slow, get_current, Entered::current, State::set_default, set_default, with_default, Drop for DefaultGuard, set_global_default, get_global, has_been_set",
@@ -26,6 +30,8 @@ PLAN = dict(
         "restoration on panic = Drop on unwind (Rust semantics); the harnesses drop the guard explicitly",
     ],
     not_covered=["interleavings of set_global_default with emissions on other threads", "tracing::dispatch / tracing::collect re-exports (same functions)", "no_std build (no scoped defaults)"],
+    verus=[dict(name="history", builder="build_history",
+                obligations=["emission_sees_resolve", "set_default_preserves", "drop_preserves", "set_global_preserves", "history_invariant"])],
     kani=[dict(
         crate="tracing-core", tls_shim=True, once_cell_stub=True,
         modules=[dict(name="__verif_c02", attach="inline", file="tracing-core/src/dispatch.rs",
